@@ -56,10 +56,10 @@ syntax "spec_tac " "[" term,* "]" " using " "[" Lean.Parser.Tactic.simpLemma,* "
 macro_rules
   | `(tactic| spec_tac [$ts,*] using [$ls,*]) =>
     `(tactic| (try intro f hf
-               simp only [pst] at *
-               simp at *
-               casesm* _ ∧ _
-               bash [$ts,*] using [$ls,*]))
+               try simp only [pst] at *
+               try simp at *
+               all_goals (casesm* _ ∧ _)
+               all_goals (bash [$ts,*] using [$ls,*])))
 
 /-- all components outside `L` unchanged; dimension, topology and ghost counter unchanged. -/
 structure Frame (L : List Fld) (s t : PState) : Prop where
